@@ -66,6 +66,9 @@ def workloads(tier):
     add('delete d/g, d/h || create d/n', [[(tq.t_delete, 'd/g', False)], [(tq.t_delete, 'd/h', False)], [(tq.t_create, 'd/n', False)]])
     add('delete e/i || create x/y/n || modify f', [[(tq.t_delete, 'e/i', False), (tq.t_create, 'x/y/n', False), (tq.t_mod, 'f')]])
     add('rename d/g -> x/y/n || delete d/h', [[(tq.t_rename, 'd/g', 'x/y/n', True), (tq.t_delete, 'd/h', False)]], both)
+    # names related through chains of renames across patches (they must all end up on one worker)
+    add('rename chain util->helpers->support, core->helpers', [[(tq.t_mod, 'f')], [(tq.t_rename, 'd/g', 'n', True)], [(tq.t_rename, 'n', 'd/n', True)], [(tq.t_rename, 'f', 'n', True)]], both)
+    add('rename chain joining two groups late', [[(tq.t_rename, 'd/g', 'n', False)], [(tq.t_rename, 'd/h', 'd/n', True)], [(tq.t_rename, 'n', 'x/y/n', True)], [(tq.t_rename, 'd/n', 'n', True)], [(tq.t_mod, 'n', 1, 0, 1)]])
     # all-success with backups (save order between workers)
     add('success, three workers', [[(tq.t_mod, 'f'), (tq.t_mod, 'd/g')], [(tq.t_mod, 'd/h'), (tq.t_mode, 'f', True)]], ({'backup': 'always'},))
     return m0, W
